@@ -13,8 +13,18 @@
    renegade::Parser::print_char                            ren_step    state RNormal | RFirst | RSecond v
    ctrla::Parser::print_char                               ctrla_step  state (ctrl_a, is_bold, high_bg); the commands
                                                            J > < ] and 128..255 (terminal-state dependent) are unmodelled
-   avatar::Parser::print_char (after the `fix:` commit     avt_step    state AChars | ARep1 | ARep2 c | ACmd | AColor | AMove1 |
-     "Avatar goto takes 1-based position bytes")           AMove2 c
+   avatar::Parser::print_char (merged tree: goto takes     avt_step    state AChars | ARep1 | ARep2 c | ACmd | AColor | AMove1 |
+     1-based bytes AND, like ^V^C ^V^D ^V^F, ends with     AMove2 c
+     terminal_state.limit_caret_pos)
+   TerminalState::limit_caret_pos on a NON-terminal        limit_caret w p   (origin mode UpperLeftCorner - only an ESC sequence
+     buffer (the loaders set is_terminal_buffer = false)   changes it, and ESC leaves the model -: the row is NOT touched, the column
+                                                           is clamped to 0 ..= max(terminal_state width - 1, 0); the terminal
+                                                           state's width is the Buffer::new width w of the loader: reset_terminal
+                                                           keeps it and only a SAUCE record - outside the model - changes it)
+   Caret::home (Ctrl-A ^A'), non-terminal buffer           set_pos p 0 0   (upper_left_position = (0, get_first_visible_line())
+                                                           and get_first_visible_line() = 0 when is_terminal_buffer = false)
+   Caret::ff: `if buf.is_terminal_buffer { set_size }`     not taken by the loaders: ff (Model/TextBuf.v) keeps the layer height
+   (these fragments are pinned token by token by translator/gen_textfmt.py; AVT_RIGHT_MAX = the 79 of ^V^F)
    atascii::Parser::print_char                             ata_step    state got_escape; 1C..1F, 9C, 9D are unmodelled
    Every parser step is split in two layers, which is how the proofs use it:
      astep : state -> caret attribute -> char -> option (state * attribute)   the transitions that touch nothing but the
@@ -175,6 +185,9 @@ Definition avt_astep (ps : avt_ps) (a : TextAttribute) (ch : N) : option (avt_ps
   | AMove1 => Some (AMove2 ch, a)
   | AMove2 _ => None
   end.
+(* TerminalState::limit_caret_pos, UpperLeftCorner, is_terminal_buffer = false:
+   caret.pos.x = caret.pos.x.clamp(0, (self.get_width() - 1).max(0)); caret.pos.y unchanged *)
+Definition limit_caret (w : nat) (p : pbuf) : pbuf := set_pos p (Nat.min (px p) (Nat.pred w)) (py p).
 Fixpoint ansi_repeat (w : nat) (n : nat) (p : pbuf) (ch : N) : option pbuf :=
   match n with
   | O => Some p
@@ -185,13 +198,13 @@ Definition avt_bstep (w : nat) (ps : avt_ps) (p : pbuf) (ch : N) : option (avt_p
   | AChars => if ch =? AVT_CLR then Some (AChars, ff p) else lift_print _ AChars (ansi_print w p ch)
   | ACmd =>
       let c := ch mod 65536 in
-      if c =? 3 then Some (AChars, set_pos p (px p) (Nat.pred (py p)))
-      else if c =? 4 then Some (AChars, set_pos p (px p) (S (py p)))
+      if c =? 3 then Some (AChars, limit_caret w (set_pos p (px p) (Nat.pred (py p))))
+      else if c =? 4 then Some (AChars, limit_caret w (set_pos p (px p) (S (py p))))
       else if c =? 5 then Some (AChars, set_pos p (Nat.pred (px p)) (py p))
-      else if c =? 6 then Some (AChars, set_pos p (Nat.min 79 (S (px p))) (py p))
+      else if c =? 6 then Some (AChars, limit_caret w (set_pos p (Nat.min AVT_RIGHT_MAX (S (px p))) (py p)))
       else None
   | ARep2 c => lift_print _ AChars (ansi_repeat w (N.to_nat ch) p c)
-  | AMove2 c => Some (AChars, set_pos p (Nat.pred (N.to_nat c)) (Nat.pred (N.to_nat ch)))
+  | AMove2 c => Some (AChars, limit_caret w (set_pos p (Nat.pred (N.to_nat c)) (Nat.pred (N.to_nat ch))))
   | _ => None
   end.
 
